@@ -67,17 +67,17 @@ def write_omen(od, om, enc='utf-8'):
     with open(os.path.join(od, 'alphabet.txt'), 'w', encoding=enc, newline='') as f:
         for ch in sorted({ch for _, g in list(om['ip']) + list(om['cp']) for ch in g}):
             f.write(ch + '\n')
+    # om['no_final_newline']: the level files end without a line feed after their last record (hand-edited files, files written with '\n'.join(rows))
+    cut = (lambda t: t[:-1] if t.endswith('\n') else t) if om.get('no_final_newline') else (lambda t: t)
     for fn, key in [('IP.level', 'ip'), ('CP.level', 'cp'), ('EP.level', 'ip')]:
         with open(os.path.join(od, fn), 'w', encoding=enc, newline='') as f:
-            for l, g in om[key]:
-                f.write(f"{l}\t{g}\n")
+            f.write(cut(''.join(f"{l}\t{g}\n" for l, g in om[key])))
     with open(os.path.join(od, 'LN.level'), 'w') as f:
-        for l in om['ln']:
-            f.write(f"{l}\n")
+        f.write(cut(''.join(f"{l}\n" for l in om['ln'])))
     with open(os.path.join(od, 'pcfg_omen_prob.txt'), 'w', encoding=enc, newline='') as f:
         for l, p in om.get('probs', []):
             f.write(f"{l}\t{fmt(p)}\n")
-    # omen_keyspace.txt is read with the platform default encoding: in a ruleset declared utf-8-sig it carries no byte-order mark (a hand-made / repaired ruleset)
+    # omen_keyspace.txt: in a ruleset declared utf-8-sig it carries no byte-order mark here (a hand-made / repaired ruleset; the codec reads both forms)
     with open(os.path.join(od, 'omen_keyspace.txt'), 'w', encoding=('utf-8' if enc.lower().replace('_', '-') == 'utf-8-sig' else enc), newline='') as f:
         for l, k in om.get('keyspace', []):
             f.write(f"{l}\t{k}\n")
@@ -222,7 +222,10 @@ def gen_omen(rng, alphabet=None, ngram=None, nlevels=None, max_len=None):
         ln[L - 1] = rng.choice(pool + [10])
     if all(ln[L - 1] == 10 for L in range(ngram, max_len + 1)) and rng.random() < 0.8:
         ln[ngram - 1] = rng.choice(pool)
-    return dict(ngram=ngram, ip=ip, cp=cp, ln=ln, probs=[], keyspace=[])
+    om = dict(ngram=ngram, ip=ip, cp=cp, ln=ln, probs=[], keyspace=[])
+    if rng.random() < 0.15:
+        om['no_final_newline'] = True
+    return om
 
 def gen_spec(rng, *, pool=None, n_base=None, max_len=4, labels=None, with_m=None, omen_levels=None,
              max_groups=4, max_per_group=3, dup_base=None, min_groups=1):
